@@ -211,7 +211,7 @@ def der_direction_cosine_spheroid(c, k, rho, rhosq=None, phi=None):
     if phi is None:
         phi = phi_spheroid(c, k, rhosq)
 
-    num = -csq * (k-1) * rho
+    num = csq * (1+k) * rho
     den = phi * phi * phi
     return num / den
 
